@@ -197,10 +197,8 @@ func (c *cache) Get(ctx context.Context, cacheId string, forceRevalidate int, sk
 	//logctx.Debugf("Hit: %v // %v", k, k.FsName())
 
 	var age int64
-	ageFromRevalidate := false
 	if sm.Revalidated != 0 {
 		age = c.now().Unix() - sm.Revalidated
-		ageFromRevalidate = true
 	} else {
 		age = c.now().Unix() - sm.Created
 	}
@@ -221,7 +219,9 @@ func (c *cache) Get(ctx context.Context, cacheId string, forceRevalidate int, sk
 
 	expires := sm.ResponseHeader.Get("expires")
 	var expiresTime time.Time
-	if !shouldRevalidate && len(expires) > 0 && !ageFromRevalidate {
+	// Expires is the lifetime only when neither s-maxage nor max-age is given; it stays in force
+	// after a revalidation (a 304 that carries a new Expires has been merged into the metadata).
+	if !shouldRevalidate && len(expires) > 0 && dirs.SMaxAge == nil && dirs.MaxAge == nil {
 		expiresTime = c.now()
 		for _, f := range []string{time.RFC1123, time.RFC1123Z} {
 			var err error
